@@ -57,6 +57,20 @@ Proof.
   destruct (join_admits_only_valid l o size l' Hs J k v He) as [?|[A [B _]]]; auto.
 Qed.
 
+(* with ANY bound, between any two replicas of any history (earlier truncations included): what the
+   log holds afterwards it held before, or it comes from the other log, carries the log's id, is
+   allowed by the access controller, verifies and carries a key *)
+Theorem C06_any_merge_admits_only_valid ops r src l o size l' :
+  pwf ops -> nth_error (s_logs (run ops)) r = Some l -> nth_error (s_logs (run ops)) src = Some o ->
+  join l o false size = (l', Ok tt) ->
+  forall k v, In (k, v) (l_entries l') ->
+    In (k, v) (l_entries l) \/
+    (e_logid v = l_id l /\ entry_ok l v = true /\ In (k, v) (l_entries o) /\ ~ In k (okeys (l_entries l))).
+Proof.
+  intros W L O J. destruct (psinv_run ops W) as [UO IL].
+  exact (join_any_bound_admits_only_valid _ l o size l' UO (IL r l L) (IL src o O) J).
+Qed.
+
 (* a denied append changes neither entries nor heads (only the clock has ticked) *)
 Theorem C06_denied_append_unchanged l payload pc h l' :
   append l payload pc h = (l', Err EDenied) ->
@@ -88,6 +102,7 @@ Print Assumptions C06_join_admits_only_valid.
 Print Assumptions C06_invalid_candidate_rejects_join.
 Print Assumptions C06_join_succeeds_iff_all_missing_valid.
 Print Assumptions C06_heads_are_own_verified_entries.
+Print Assumptions C06_any_merge_admits_only_valid.
 Print Assumptions C06_denied_append_unchanged.
 Print Assumptions C06_append_denied_iff.
 Print Assumptions C06_nonvacuous.
